@@ -130,6 +130,32 @@ def int_types(doc_type, dest_kind, negative, codes):
         sx.reach("negative")
 
 
+def export_twice(first_type, doc_type):
+    """exporting is a pure function of the dictionary as it is *now*: a dictionary built in code is exported, then its
+    defaults / parameter values are edited in code, then it is exported again - the second document describes the
+    edited dictionary (nothing of the first export sticks to it)"""
+    od = C.odmod().ObjectDictionary()
+    cases = []
+    for code in (0x03, 0x07, 0x04):
+        lo, hi = S301.int_range(code)
+        v = C.mkvar("Var %s" % S301.NAMES[code], 0x2000 + code, 0, code, "rw", default=sx.fresh_int("d%d" % code, lo, hi), pdo=False)
+        v.value = sx.fresh_int("p%d" % code, lo, hi)
+        od.add_object(v)
+        cases.append((v, lo, hi))
+    rec = C.mkrecord("Rec", 0x2100, [C.mkvar("n", 0x2100, 0, 0x05, "ro", default=1),
+                                     C.mkvar("m", 0x2100, 1, 0x03, "rw", default=sx.fresh_int("dm", -(1 << 15), (1 << 15) - 1))])
+    od.add_object(rec)
+    cases.append((rec[1], -(1 << 15), (1 << 15) - 1))
+    _export(od, first_type, "stream")
+    for k, (v, lo, hi) in enumerate(cases):
+        v.default = sx.fresh_int("e%d" % k, lo, hi)
+        v.value = sx.fresh_int("q%d" % k, lo, hi)
+    text = _export(od, doc_type, "stream")
+    od2 = _import(text, doc_type)
+    _same_od(od, od2, "C14/export-twice/%s-%s" % (first_type, doc_type), doc_type == "dcf")
+    sx.reach("export-twice")
+
+
 def structure(doc_type, nmembers, commissioning="both"):
     od = C.odmod().ObjectDictionary()
     od.comments = "exported by the harness\nsecond line = with equals" + "".join("\ncomment line %d" % i for i in range(3, 13))
@@ -285,6 +311,9 @@ def destinations(doc_type):
 
 def jobs(tier):
     out = []
+    for a in ("eds", "dcf"):
+        for b in ("eds", "dcf"):
+            out.append(dict(func="export_twice", params=dict(first_type=a, doc_type=b)))
     for doc in ("eds", "dcf"):
         codes = list(S301.INT_TYPES)
         for i, code in enumerate(codes):
@@ -327,7 +356,7 @@ META = dict(
                     "relative ($NODEID) spelling preserved (only the resolved value is compared)"],
     assumptions=[],
     stubs=["int()/hex()/format()/str() with number tokens", "dict/set displays -> SymDict/SymSet", "logging"],
-    required_reach=["int-eds", "int-dcf", "dest-stream", "dest-file", "dest-stdout", "negative", "structure-eds",
+    required_reach=["export-twice", "int-eds", "int-dcf", "dest-stream", "dest-file", "dest-stdout", "negative", "structure-eds",
                     "structure-dcf", "destinations", "imported", "booleans"],
     limits=dict(quick=dict(), thorough=dict()),
 )
